@@ -144,20 +144,24 @@ type KnownFinding struct {
 }
 
 func loadKnown(verifDir string) ([]KnownFinding, error) {
-	b, err := os.ReadFile(filepath.Join(verifDir, "known_findings.json"))
-	if err != nil {
-		if os.IsNotExist(err) {
-			return nil, nil
+	// known_findings.json is the committed list; known_findings.<x>.json fragments (if any) are
+	// merged in (used while rules are being developed in parallel; folded into the main file).
+	files, _ := filepath.Glob(filepath.Join(verifDir, "known_findings*.json"))
+	var all []KnownFinding
+	for _, f := range files {
+		b, err := os.ReadFile(f)
+		if err != nil {
+			return nil, err
 		}
-		return nil, err
+		var doc struct {
+			Findings []KnownFinding `json:"findings"`
+		}
+		if err := json.Unmarshal(b, &doc); err != nil {
+			return nil, fmt.Errorf("%s: %w", filepath.Base(f), err)
+		}
+		all = append(all, doc.Findings...)
 	}
-	var doc struct {
-		Findings []KnownFinding `json:"findings"`
-	}
-	if err := json.Unmarshal(b, &doc); err != nil {
-		return nil, fmt.Errorf("known_findings.json: %w", err)
-	}
-	return doc.Findings, nil
+	return all, nil
 }
 
 // ---- finishing -----------------------------------------------------------------------
